@@ -435,7 +435,8 @@ func (k *checker) one(r *runner, stream string, idx int, lc litCase, vc valueCfg
 // extended piece pool of the random streams
 var randPieces = []string{"{{", "}}", "{", "}", "a", "x", "tick()", "1+1", " ", `\"`, `\n`,
 	"{{a}}", "{{x}}", "{{tick()}}", "{{vh.tick()}}", "{{1+1}}", "{{ a }}", "{{\\\"{{\\\"}}", "{{}}", "{{{}}", "{{a x}}",
-	"#", "}}}", "{{{", "text", "{{12+30}}", "{{a}}{{x}}", "\\t", "'", "{{ tick() }}"}
+	"#", "}}}", "{{{", "text", "{{12+30}}", "{{a}}{{x}}", "\\t", "'", "{{ tick() }}",
+	"{{nosuch()}}", "{{1 + null}}", "{{raise(1)}}", "{{ nosuch() }}"}
 
 var valParts = []string{"{{", "}}", "{", "}", "a", "x", "tick()", "1+1", " ", "{{a}}", "{{x}}", "{{tick()}}", "{{vh.tick()}}",
 	"{{1+1}}", "#", "\"", "\n", "plain", "{{b}}", "}}{{"}
@@ -515,7 +516,7 @@ func (k *checker) random() {
 	})
 }
 
-var exceptPieces = []string{"{{e.detail}}", "{{e.type}}", "{{e.error}}", "{{ e.detail }}", "{{a}}", "{{tick()}}", "}}", "{{", " ", "msg: ", "{{1+1}}", "a", "{", "}"}
+var exceptPieces = []string{"{{nosuch()}}", "{{1 + null}}", "{{e.detail}}", "{{e.type}}", "{{e.error}}", "{{ e.detail }}", "{{a}}", "{{tick()}}", "}}", "{{", " ", "msg: ", "{{1+1}}", "a", "{", "}"}
 
 // except: error messages echoed back inside an except clause.
 func (k *checker) except() {
@@ -556,7 +557,7 @@ func (k *checker) except() {
 	})
 }
 
-var sinkPieces = []string{"{{event.state.v}}", "{{event.state.w}}", "{{event.name}}", "{{ event.state.v }}", "{{tick()}}", "}}", "{{", " ", "got: ", "{{1+1}}", "a", "{{a}}"}
+var sinkPieces = []string{"{{nosuch()}}", "{{raise(1)}}", "{{event.state.v}}", "{{event.state.w}}", "{{event.name}}", "{{ event.state.v }}", "{{tick()}}", "}}", "{{", " ", "got: ", "{{1+1}}", "a", "{{a}}"}
 
 // sink: event state echoed inside a sink. The sink body runs on a pool worker
 // where a panic would kill the process, so the same literal is first
